@@ -1118,8 +1118,13 @@ def analyse(F, fid, summaries, max_runs=20000, pairwise=False):
                 if k not in res["problems"] or w < res["problems"][k][2]:
                     res["problems"][k] = (msg, state, w)
             vsel = {a: v for a, v in state.items() if a.startswith("variant:")}
+            tstate = sorted(a for a, v in state.items() if v is True)
+            fstate = sorted(a for a, v in state.items() if v is False)
             for c in it.containers:
                 c = dict(c, variants=vsel)
+                if c["kind"] == "map" and c.get("depth") == 1 and c.get("sid", 0) == 0:
+                    c["true_atoms"] = tstate
+                    c["false_atoms"] = fstate
                 if c not in res["containers"]:
                     res["containers"].append(c)
             for tg in it.tags:
